@@ -1,6 +1,7 @@
 package main
 
 import (
+	"strings"
 	"fmt"
 	"sort"
 	"time"
@@ -130,14 +131,28 @@ type c11Scope struct {
 	get    func(root tally.Scope) tally.Scope
 }
 
+// c11RootTagged: whether the test scope has tags of its own ({"r":"0"}) or none at all (the second configuration:
+// entries of untagged scopes are where an implementation is tempted to share one empty tag map).
+var c11RootTagged = true
+
 func c11Scopes() []c11Scope {
+	base := func(extra map[string]string) map[string]string {
+		m := map[string]string{}
+		if c11RootTagged {
+			m["r"] = "0"
+		}
+		for k, v := range extra {
+			m[k] = v
+		}
+		return m
+	}
 	return []c11Scope{
-		{"root", "p", map[string]string{"r": "0"}, func(r tally.Scope) tally.Scope { return r }},
-		{"sub", "p.a", map[string]string{"r": "0"}, func(r tally.Scope) tally.Scope { return r.SubScope("a") }},
-		{"tag", "p", map[string]string{"r": "0", "k": "1"}, func(r tally.Scope) tally.Scope { return r.Tagged(map[string]string{"k": "1"}) }},
+		{"root", "p", base(nil), func(r tally.Scope) tally.Scope { return r }},
+		{"sub", "p.a", base(nil), func(r tally.Scope) tally.Scope { return r.SubScope("a") }},
+		{"tag", "p", base(map[string]string{"k": "1"}), func(r tally.Scope) tally.Scope { return r.Tagged(map[string]string{"k": "1"}) }},
 		// a derivation that ends at the root's own prefix and tags: metrics recorded through it are the root's
-		{"rootagain", "p", map[string]string{"r": "0"}, func(r tally.Scope) tally.Scope { return r.Tagged(map[string]string{}) }},
-		{"subtag", "p.a", map[string]string{"r": "1", "k": "2"}, func(r tally.Scope) tally.Scope {
+		{"rootagain", "p", base(nil), func(r tally.Scope) tally.Scope { return r.Tagged(map[string]string{}) }},
+		{"subtag", "p.a", base(map[string]string{"r": "1", "k": "2"}), func(r tally.Scope) tally.Scope {
 			return r.SubScope("a").Tagged(map[string]string{"k": "2", "r": "1"})
 		}},
 	}
@@ -162,7 +177,11 @@ func c11Exec(alphabet []string) func(hist []int) (string, string, string, int) {
 	scopes := c11Scopes()
 	return func(hist []int) (cl, det, key string, steps int) {
 		cl, det = guard(func() (string, string) {
-			root := tally.VerifNewTestScopeOpts(tally.ScopeOptions{Prefix: "p", Tags: map[string]string{"r": "0"}}, 4)
+			var rootTags map[string]string
+			if c11RootTagged {
+				rootTags = map[string]string{"r": "0"}
+			}
+			root := tally.VerifNewTestScopeOpts(tally.ScopeOptions{Prefix: "p", Tags: rootTags}, 4)
 			m := newC11Model()
 			live := map[string]tally.Scope{}
 			inert := map[string]bool{}
@@ -313,8 +332,24 @@ func c11Jobs(tier string) []*SeqJob {
 	alphabet := c11Alphabet()
 	depth := tierInt(tier, 3, 4)
 	j := &SeqJob{Property: "C11", Name: "test-scope-histories", Shards: tierInt(tier, 8, 16)}
-	j.Run = func(ctx *SeqCtx) { bfs(ctx, alphabet, depth, c11Exec(alphabet)) }
+	j.Run = func(ctx *SeqCtx) {
+		for _, tagged := range []bool{true, false} {
+			c11RootTagged = tagged
+			bfs(ctx, alphabet, depth, c11Exec(alphabet))
+			if ctx.viol != nil {
+				ctx.viol.Ops = append([]string{fmt.Sprint("root-tagged=", tagged)}, ctx.viol.Ops...)
+				break
+			}
+			ctx.seen = map[string]struct{}{}
+		}
+		c11RootTagged = true
+	}
 	j.Replay = func(ops []string) (string, string) {
+		if len(ops) > 0 && strings.HasPrefix(ops[0], "root-tagged=") {
+			c11RootTagged = ops[0] == "root-tagged=true"
+			ops = ops[1:]
+			defer func() { c11RootTagged = true }()
+		}
 		cl, det, _, _ := c11Exec(alphabet)(opIndex(alphabet, ops))
 		return cl, det
 	}
